@@ -110,6 +110,15 @@ Variable pt : list (list N).
 Lemma tl_length (r : list mtok) : (length (tl r) <= length r)%nat.
 Proof. destruct r; cbn; lia. Qed.
 
+Lemma read_arg_one_length rr : forall ts lvl a rest, read_arg_one rr lvl ts = Some (a, rest) -> (length a + length rest = length ts)%nat.
+Proof.
+  induction ts as [|t r IH]; intros lvl a rest H; cbn [read_arg_one] in H; [discriminate|].
+  destruct (Nat.eqb lvl 0 && is t RP); [injection H as <- <-; reflexivity|].
+  destruct (Nat.eqb lvl 0 && negb rr && is t COMMA); [injection H as <- <-; reflexivity|].
+  destruct (read_arg_one rr _ r) as [[a' rest']|] eqn:E; [|discriminate]. injection H as <- <-.
+  apply IH in E. cbn [length]. lia.
+Qed.
+
 Theorem subst_own_fuel pp obj : forall n body args acc,
   subst pt pp obj n body args acc = MFuel -> (length body < n)%nat -> exists x, pp x = MFuel.
 Proof.
@@ -120,7 +129,7 @@ Proof.
   | context [if ?x then _ else _] => destruct x eqn:?
   end; try discriminate;
   repeat match goal with
-  | E : read_arg_one _ _ _ = Some _ |- _ => apply read_arg_one_suffix in E; destruct E as [E _]; apply suffix_length in E; cbn [length] in E
+  | E : read_arg_one _ _ _ = Some _ |- _ => pose proof (read_arg_one_length _ _ _ _ _ E); apply read_arg_one_suffix in E; destruct E as [E _]; apply suffix_length in E; cbn [length] in E
   end;
   repeat match goal with
   | E : (if ?c then _ else _) = Some _ |- _ => destruct c eqn:?; try discriminate E
@@ -129,7 +138,9 @@ Proof.
   end;
   try (pose proof (tl_length r));
   try solve [eapply IH; [exact H|cbn [length] in *; subst; cbn [length tl] in *; lia]];
-  try solve [eexists; eassumption].
+  try solve [eexists; eassumption];
+  (* the nested substitution of the content of __VA_OPT__( ... ) ran out: the content is shorter than the body *)
+  try solve [match goal with E : subst _ _ _ _ _ _ [] = MFuel |- _ => eapply IH; [exact E|cbn [length] in *; subst; cbn [length tl] in *; lia] end].
 Qed.
 End Q.
 
